@@ -197,7 +197,7 @@ End Descent.
    alters any step on such a tree breaks this theorem. *)
 Section IterExample.
 Definition no_calls : string -> env -> option env := fun _ _ => None.
-Definition env_of_res (x : res) : option env := match x with RNormal e | RBreak e | RReturn _ e => Some e | RErr => None end.
+Definition env_of_res (x : res) : option env := match x with RNormal e | RBreak e | RReturn _ e => Some e | RStuck | RErr => None end.
 Definition run_move (r : node) (e : env) : option env := env_of_res (exec false (fun _ => false) r no_calls 300 e iter_pvMove).
 Definition run_moveif (r : node) (e : env) : option env :=
   env_of_res (exec false (fun _ => false) r (fun nm e' => if nm =? "pvMove" then run_move r e' else None) 300 e iter_pvMoveIf).
@@ -225,6 +225,15 @@ Definition steps_agree (t : tree) : bool :=
                                 | _, _ => false end) (seq 0 (cnt t))
   | None => false
   end.
+(* operator-- at begin violates MOMO_CHECK(node != nullptr): the obligation is kept, the run is Stuck (not silently continued) *)
+Definition decr_at_begin_is_stuck (t : tree) : bool :=
+  match root t with
+  | Some r => match exec false (fun _ => false) r (iter_calls r) 300 (env_of_iter (begin_iter t)) iter_decr with RStuck => true | _ => false end
+  | None => false
+  end.
+Theorem iter_decr_at_begin_stuck_on_examples : decr_at_begin_is_stuck ex_t0 && decr_at_begin_is_stuck ex_t1 && decr_at_begin_is_stuck ex_t2 = true.
+Proof. vm_compute. reflexivity. Qed.
+
 Theorem iter_steps_agree_on_examples :
   steps_agree ex_t0 && steps_agree ex_t1 && steps_agree ex_t2 = true /\
   existsb (fun x => match x with (true, 0%nat, _) => true | _ => false end) (shape_of ex_t1) = true /\ cnt ex_t0 = 10%nat.
